@@ -313,3 +313,9 @@ Example never_running_hyp_sat :
 Proof.
   split; [exact ws_ex_nodup|]. split; [left; reflexivity|]. vm_compute. left. reflexivity.
 Qed.
+
+(* --perform is what makes the difference on a workspace with finished jobs *)
+Example perform_hyp_sat :
+  let o p := {| o_experiment := []; o_filter := None; o_perform := p |} in
+  o_perform (o false) = false /\ clean ws_ex (o false) = [] /\ clean ws_ex (o true) <> [].
+Proof. vm_compute. repeat split; discriminate. Qed.
